@@ -3,7 +3,9 @@
 TLC C17Gen enumerates, for five base grammars (lexer only; plain parser with semantic values; event-based AST grammar with fields,
 categories, injected tokens and recovery; runtime lookaheads with a mid-rule action; lalr(2)), the home option valuation and every
 valuation within two flips of it over 23 boolean options -> each is compiled and generated in-process by the real compiler/gen and
-built with go1.26 -> TLC C17Trace: Compile -> Rejected | (Write+ -> Build ok); a crash, generator error or failing build deadlocks.
+built with go1.26 -> TLC C17Trace: Compile -> Rejected | (Write+ -> Build ok); a crash, generator error or failing build has no transition
+(invariant Accepted over ENABLED). The post-processing step of every generated Go file, gen.ExtractGoImports, is checked on its own against
+Imports.tla: TLC enumerates 5944 sources of qualified references, the real function's output is parsed back with go/parser.
 """
 import os
 import vlib
@@ -71,9 +73,20 @@ def run(ctx):
     kw = dict(sig=sig, sigv=sigv, rerun=None, input_keys=["base", "opts", "k", "tmtext"], observed_keys=["outcome", "detail", "files", "built", "buildMsg"],
               nontrivial=lambda c: c["outcome"] == "generated" and len(c["opts"]) >= 2)
     vlib.validate_cases(ctx, "C17Trace", "C17Trace.cfg", out, label="configs", timeout=1800, **kw)
+    # the post-processing step every generated Go file passes through: gen.ExtractGoImports (Imports.tla), all sources of 1-3 qualified
+    # references over 5 paths x 4 alias choices in the documented format, with and without a package clause
+    ic = ctx.path("imports.ndjson")
+    ctx.tlc("ImportsGen", "Gen.cfg", workers=1, timeout=900, name="importsgen", env={"VERIF_OUT": ic})
+    io = ctx.path("imports.rec.ndjson")
+    ctx.vhrun(["imports-run", ic, io], timeout=600)
+    isig = lambda c: "imports:%s:%s" % ("pkg" if c["pkg"] else "nopkg", " ".join("%d/%s" % (r["path"], r["alias"] or "-") for r in c["refs"]))
+    vlib.validate_cases(ctx, "ImportsTrace", "ImportsTrace.cfg", io, label="imports", timeout=1800, sig=isig, sigv=lambda c, rec, v: v + ":" + isig(c), rerun=None,
+                        input_keys=["refs", "pkg", "src"], observed_keys=["out", "crash", "parses", "imports", "groupBreak", "sels", "placed", "leftover"],
+                        nontrivial=lambda c: len(c["imports"]) >= 2)
     ctx.cov["programs"] = len(results)
     ctx.cov["rule"] = ("5 base grammars x (home valuation + all single and pairwise flips of 23 boolean Go-target options)%s = %d configurations; each compiled, generated and built by the "
-                       "real tool chain; TLC admits Rejected or Write+/Build-ok only. Non-trivial: accepted configurations that set at least two options." % ("" if thorough else ", all single flips and every 4th pairwise one", len(results)))
+                       "real tool chain; TLC admits Rejected or Write+/Build-ok only. gen.ExtractGoImports: all 5944 sources of 1-3 qualified references (5 paths x 4 alias choices, with/without package clause) "
+                       "against Imports.tla. Non-trivial: accepted configurations that set at least two options." % ("" if thorough else ", all single flips and every 4th pairwise one", len(results)))
     ctx.assumptions += ["'builds' is decided by go1.26 build; configurations the compiler rejects with errors are outside the quantifier",
                         "the predicted file set is limited to lexer/token/parser files",
                         "table-size thresholds: one lexer with more than 32767 DFA states, one mid-size grammar and ten lexers around the rune-map thresholds are generated and built with the home valuation"]
